@@ -1435,22 +1435,42 @@ func ruleParGlobalIdx(c *Ctx, r *R) {
 				// a new helper inherits the compile-case(s) it is called from
 				if ho := c.Info.Defs[fd.Name]; ho != nil && c.isNewHelper(ho) {
 					labels := map[string]bool{}
-					ast.Inspect(cs.Fn.Body, func(k ast.Node) bool {
-						hc, ok := k.(*ast.CallExpr)
-						if !ok || c.Callee(hc) != ho {
-							return true
+					// (transitively: a helper of a helper of the case)
+					var collect func(target types.Object, depth int)
+					collect = func(target types.Object, depth int) {
+						if depth > 3 {
+							return
 						}
-						for p := c.Parent(hc); p != nil; p = c.Parent(p) {
-							if cc, ok := p.(*ast.CaseClause); ok {
-								for _, sc := range cs.Cases {
-									if sc.Clause == cc && len(sc.Labels) > 0 {
-										labels[sc.Labels[0]] = true
-									}
+						for _, f := range c.Pkg.Syntax {
+							ast.Inspect(f, func(k ast.Node) bool {
+								hc, ok := k.(*ast.CallExpr)
+								if !ok || c.Callee(hc) != target {
+									return true
 								}
-							}
+								encl := c.EnclosingFunc(hc)
+								if encl == nil {
+									return true
+								}
+								if encl == cs.Fn {
+									for p := c.Parent(hc); p != nil; p = c.Parent(p) {
+										if cc, ok := p.(*ast.CaseClause); ok {
+											for _, sc := range cs.Cases {
+												if sc.Clause == cc && len(sc.Labels) > 0 {
+													labels[sc.Labels[0]] = true
+												}
+											}
+										}
+									}
+								} else if eo := c.Info.Defs[encl.Name]; eo != nil && c.isNewHelper(eo) {
+									collect(eo, depth+1)
+								} else {
+									labels["?"+encl.Name.Name] = true
+								}
+								return true
+							})
 						}
-						return true
-					})
+					}
+					collect(ho, 0)
 					if len(labels) == 1 {
 						for l := range labels {
 							label = l
